@@ -96,6 +96,29 @@ Theorem reboot_forks_refuted :
   after_boot (boot_rule true [1] used_store) [1] used_store = used_store.
 Proof. repeat split; vm_compute; reflexivity. Qed.
 
+(* ---- join ---- *)
+(* a joiner whose boot is given no peers keeps its store as it is; a pristine store holds nothing as committed, so it
+   agrees with whatever log the group has (the leader then replicates that log to it) *)
+Theorem join_takes_group_log guarded members d g : pristine d = true -> committed_agrees (join_boot guarded false members d) g.
+Proof.
+  intros P. unfold join_boot, join_peers, boot_rule, after_boot. intros i Hi. exfalso.
+  unfold pristine, is_empty_hard in P. destruct (h_commit (m_hard d) =? 0) eqn:E.
+  - apply N.eqb_eq in E. lia.
+  - rewrite !Bool.andb_false_r in P. simpl in P. discriminate.
+Qed.
+(* handing the joiner the member list makes it bootstrap: it holds positions 1..|members| as committed with term 1,
+   while a group that has elected a leader holds a later term there - two histories *)
+Definition group_log_12 : mem :=
+  {| m_hard := {| h_term := 2; h_vote := 1; h_commit := 5 |}; m_snap := empty_snap;
+     m_ents := map (fun i => {| e_term := (if i <? 3 then (if i =? 0 then 0 else 1) else 2); e_index := i; e_data := i; e_size := 4 |}) [0; 1; 2; 3; 4; 5] |}.
+Theorem join_with_members_forks_refuted :
+  pristine mem_new = true /\ m_term (join_boot true true [1; 2; 3] mem_new) 3 = Ok 1 /\ m_term group_log_12 3 = Ok 2 /\
+  h_commit (m_hard (join_boot true true [1; 2; 3] mem_new)) = 3 /\ ~ committed_agrees (join_boot true true [1; 2; 3] mem_new) group_log_12.
+Proof.
+  repeat split; try (vm_compute; reflexivity). intros H. specialize (H 3). vm_compute in H.
+  assert (E : Ok 1 = Ok 2) by (apply H; split; discriminate). discriminate.
+Qed.
+
 (* ---- recovery ---- *)
 Lemma replay_app s h1 h2 : replay s (h1 ++ h2) = replay (replay s h1) h2.
 Proof. unfold replay. apply fold_left_app. Qed.
